@@ -679,6 +679,22 @@ fn random_sock(ctx: &mut Ctx, cases: u32) {
 
 fn replay(ctx: &mut Ctx, v: &Value) {
     let cj = &v["case"];
+    if cj["upgrade_without_flag"] == json!(true) {
+        ctx.case(None);
+        ctx.force_sample(cj.clone());
+        if let Err(f) = run_upgrade_without_flag(cj["cut"].as_u64().map(|c| c as usize)) {
+            ctx.violation(&f.key, &f.what, "c02-replay", cj.clone());
+        }
+        return;
+    }
+    if let Some(a) = cj["aligned_at"].as_u64() {
+        ctx.case(None);
+        ctx.force_sample(cj.clone());
+        if let Err(f) = run_aligned(a as usize, cj["lead"].as_u64().unwrap_or(0) as usize, cj["cut"].as_u64().map(|c| c as usize)) {
+            ctx.violation(&f.key, &f.what, "c02-replay", cj.clone());
+        }
+        return;
+    }
     if cj["ping_multiplex"] == json!(true) {
         ctx.case(None);
         ctx.force_sample(cj.clone());
@@ -727,6 +743,129 @@ fn replay(ctx: &mut Ctx, v: &Value) {
     };
     if let Err(f) = res {
         ctx.violation(&f.key, &f.what, "c02-replay", cj.clone());
+    }
+}
+
+// ------------------------------------------------------------------------------------------------
+// streams of small requests in which one request ends exactly on a multiple of the 8 KiB buffer size
+
+fn echo_msg(tok: &str) -> Vec<u8> {
+    encode(&json!({"method": "org.verif.test.Echo", "parameters": {"token": tok, "n": 1}}), Style::Compact)
+}
+
+/// `align`: the byte offset (a multiple of 8192) on which a request must end; `before`: how many
+/// small requests precede it at the start of the stream; three more follow.
+pub fn run_aligned(align: usize, lead: usize, cut: Option<usize>) -> Result<(), Fail> {
+    let (svc, _p) = t_service();
+    let mut bytes = vec![];
+    let mut toks = vec![];
+    let mut i = 0usize;
+    // `lead` bytes of padding inside the first token move everything behind it
+    let first = format!("a{}", "p".repeat(lead));
+    bytes.extend(echo_msg(&first));
+    toks.push(first);
+    loop {
+        let tok = format!("m{}", i);
+        let m = echo_msg(&tok);
+        // leave room for one padded message that ends exactly at `align`
+        if bytes.len() + m.len() + 80 > align {
+            break;
+        }
+        bytes.extend(m);
+        toks.push(tok);
+        i += 1;
+    }
+    let base = echo_msg("");
+    let room = align - bytes.len();
+    if room < base.len() {
+        return Ok(());
+    }
+    let tok = "z".repeat(room - base.len());
+    bytes.extend(echo_msg(&tok));
+    toks.push(tok);
+    debug_assert_eq!(bytes.len(), align);
+    for j in 0..3 {
+        let tok = format!("after{}", j);
+        bytes.extend(echo_msg(&tok));
+        toks.push(tok);
+    }
+    let chunks: Vec<&[u8]> = match cut {
+        Some(c) if c > 0 && c < bytes.len() => vec![&bytes[..c], &bytes[c..]],
+        _ => vec![&bytes[..]],
+    };
+    let run = run_chunks(&svc, &chunks);
+    if let Some(e) = &run.err {
+        return Err(Fail::new("handle/seg/aligned-error", format!("stream of {} small requests with one ending at byte {}: handle() returned {}", toks.len(), align, e)));
+    }
+    let replies = split_replies("handle/seg/aligned", &run.out)?;
+    let got: Vec<String> = replies.iter().map(|r| r["parameters"]["token"].as_str().unwrap_or("?").to_string()).collect();
+    if got != toks {
+        let at = got.iter().zip(toks.iter()).position(|(a, b)| a != b).unwrap_or(got.len().min(toks.len()));
+        return Err(Fail::new(
+            "handle/seg/aligned-replies-missing",
+            format!(
+                "{} pipelined small requests, request #{} ends exactly at byte {} of the stream (cut: {:?}): {} replies came back, the first difference is at reply #{} - requests behind the aligned one were neither answered nor returned as tail (tail {} bytes)",
+                toks.len(), toks.len() - 4, align, cut, got.len(), at, run.tail.len()
+            ),
+        ));
+    }
+    if !run.tail.is_empty() {
+        return Err(Fail::new("handle/seg/aligned-tail", format!("every message is complete but the returned tail has {} bytes", run.tail.len())));
+    }
+    Ok(())
+}
+
+/// A method that upgrades the connection although the request carries no `upgrade` member (a raw client
+/// forgot it): the call has upgraded, so every byte behind that request goes to the upgraded handler.
+pub fn run_upgrade_without_flag(cut: Option<usize>) -> Result<(), Fail> {
+    let (svc, probe) = t_service();
+    take_upgraded(&probe);
+    let payload: &[u8] = b"raw payload \0 with a NUL {\"method\":\"org.varlink.service.GetInfo\"}\0 tail";
+    let mut bytes = echo_msg("before");
+    bytes.extend(encode(&json!({"method": "org.verif.test.Upgrade", "parameters": {"token": "no-flag"}}), Style::Compact));
+    bytes.extend_from_slice(payload);
+    let chunks: Vec<&[u8]> = match cut {
+        Some(c) if c > 0 && c < bytes.len() => vec![&bytes[..c], &bytes[c..]],
+        _ => vec![&bytes[..]],
+    };
+    let run = run_chunks(&svc, &chunks);
+    let got = take_upgraded(&probe);
+    if let Some(e) = &run.err {
+        return Err(Fail::new("handle/seg/upgrade-without-flag", format!("cut {:?}: handle() returned {} (the bytes behind the upgrading call were parsed as varlink messages?)", cut, e)));
+    }
+    if got != payload {
+        return Err(Fail::new(
+            "handle/seg/upgraded-bytes",
+            format!("cut {:?}: the method upgraded the connection (request without an `upgrade` member); the upgraded handler was offered {} of the {} bytes that follow the request", cut, got.len(), payload.len()),
+        ));
+    }
+    let replies = split_replies("handle/seg/upgrade-without-flag", &run.out)?;
+    if replies.len() != 2 {
+        return Err(Fail::new("handle/seg/upgrade-without-flag", format!("cut {:?}: expected the Echo reply and the upgrade reply, got {} replies", cut, replies.len())));
+    }
+    Ok(())
+}
+
+fn aligned(ctx: &mut Ctx) {
+    for cut in std::iter::once(None).chain((1..200).step_by(3).map(Some)) {
+        ctx.case(Some(hash64(&("upgrade-without-flag", cut))));
+        ctx.class("mem:upgrading-call-without-upgrade-member");
+        if let Err(f) = pt::guard(|| run_upgrade_without_flag(cut)) {
+            ctx.violation(&f.key, &f.what, "c02-mem", json!({"upgrade_without_flag": true, "cut": cut}));
+            return;
+        }
+    }
+    for align in [8192usize, 16384, 24576] {
+        for lead in [0usize, 1, 7, 100, 1000, 4000] {
+            for cut in [None, Some(1), Some(100), Some(5000), Some(8191), Some(8192), Some(8193), Some(12000)] {
+                ctx.case(Some(hash64(&("aligned", align, lead, cut))));
+                ctx.class("mem:request-ends-on-a-multiple-of-8KiB");
+                if let Err(f) = pt::guard(|| run_aligned(align, lead, cut)) {
+                    ctx.violation(&f.key, &f.what, "c02-mem", json!({"aligned_at": align, "lead": lead, "cut": cut}));
+                    return;
+                }
+            }
+        }
     }
 }
 
@@ -875,6 +1014,7 @@ pub fn run(args: &Args) -> ! {
         ctx.finish();
     }
     exhaustive(&mut ctx);
+    aligned(&mut ctx);
     ctx.bump_sample_cap(6);
     let n = ctx.tier.pick(6_000, 120_000);
     random_mem(&mut ctx, n);
